@@ -32,21 +32,22 @@ def run(ctx, prop, focuses, quick_cases, thorough_cases, stress=0):
         ctx.known += [f for f in json.load(open(ep)) if f["property"] == prop and f["signature"] not in have]
     env = {"VERIF_PROP": prop}
     if ctx.replay:
-        ctx.tie("replay", [h, "run", ctx.replay], [drv], env=env); return
+        ctx.tie("replay", [h, "run", ctx.replay], [drv], env=env, shrink_with=[h, "run"]); return
     w = os.path.join(VERIF, "findings", prop + "_findings.case")
     if os.path.exists(w):
-        ctx.tie("known-findings", [h, "run", w], [drv], env=env)
+        ctx.tie("known-findings", [h, "run", w], [drv], env=env, shrink_with=[h, "run"])
     corpus = os.path.join(VERIF, "corpus", "cache")
     if os.path.isdir(corpus):
         for f in sorted(os.listdir(corpus)):
             if f.endswith(".case"):
-                ctx.tie("corpus-" + f[:-5], [h, "run", os.path.join(corpus, f)], [drv], env=env)
+                ctx.tie("corpus-" + f[:-5], [h, "run", os.path.join(corpus, f)], [drv], env=env, shrink_with=[h, "run"])
     total = quick_cases if ctx.quick else thorough_cases
     wsum = sum(wt for _, wt in focuses)
     for focus, wt in focuses:
         n = max(50, total * wt // wsum)
         ctx.tie("cache-differential-" + focus,
-                [h, "gen", "--seed", str(ctx.seed), "--cases", str(n), "--tier", ctx.tier, "--focus", focus, "--workers", "8"], [drv], env=env)
+                [h, "gen", "--seed", str(ctx.seed), "--cases", str(n), "--tier", ctx.tier, "--focus", focus, "--workers", "8"], [drv], env=env,
+                shrink_with=[h, "run"])   # a failing case is delta-debugged over its op list (vlib.Ctx.shrink)
     if stress:
         # real threads + live janitor (1 ms): concurrent histories checked against the per-key register with
         # real-time order, accounting at quiescence, listener truthfulness. Not replayed on the model; replay: best-effort.
